@@ -3,8 +3,9 @@ import StepModel.ExpressDiag
 # `Express.Lex` — the diagnostics of the EXPRESS scanner (`src/express/expscan.l`, `lexact.c`)
 
 Only what decides *which lexical diagnostics are produced, with which argument, for which bytes*:
-the longest-match rule set of condition `code` and `comment` (token kinds are not kept), the non-ASCII
-substitution done while the buffer is filled (`SCANnextchar`), `SCANprocess_encoded_string`.
+the longest-match rule set of condition `code` and `comment` (token kinds are not kept) and
+`SCANprocess_encoded_string`.  `SCANnextchar` (the only reporter of NONASCII_CHAR) is dead code: the perplex-generated
+scanner fills its buffer with `fgetc` and never calls it, so a non-ASCII byte simply falls to the catch-all rule.
 Positions are byte offsets into the input; the line attached to a diagnostic is the number of newlines consumed
 before its token (`yylineno` starts at 0 and is bumped by the newline rules).
 
@@ -36,17 +37,6 @@ structure LDiag where
   off : Nat
   arg : Option Arg
   deriving Repr, DecidableEq
-
-/-- phase 1 (`SCANnextchar`): every non-ASCII byte is reported (`0xff & c`) and replaced by a space -/
-def substNonAscii : List Char → List Char
-  | [] => []
-  | c :: cs => (if nonAscii c then ' ' else c) :: substNonAscii cs
-
-def nonAsciiDiags : List Char → Nat → List LDiag
-  | [], _ => []
-  | c :: cs, off =>
-    if nonAscii c then ⟨LibErrors.NONASCII_CHAR, off, some (.int (c.toNat % 256))⟩ :: nonAsciiDiags cs (off + 1)
-    else nonAsciiDiags cs (off + 1)
 
 inductive StrScan
   | terminated (n : Nat)      -- rule `'...'` matched `n` characters
@@ -200,8 +190,7 @@ termination_by rest.length
 decreasing_by simp [List.length_drop]; omega
 
 /-- every lexical diagnostic of a file, offsets into the original bytes -/
-def lexDiags (input : List Char) : List LDiag :=
-  nonAsciiDiags input 0 ++ lexFrom .code 0 (substNonAscii input)
+def lexDiags (input : List Char) : List LDiag := lexFrom .code 0 input
 
 /-- `yylineno` when the token at `off` is matched -/
 def lineAt (input : List Char) (off : Nat) : Nat := ((input.take off).filter (· = '\n')).length
